@@ -249,8 +249,8 @@ let keys_line l =
   let opt v = if v < 0 then None else Some (nat v) in
   let no = next () in
   let objs = Array.init no (fun i ->
-    let pkg = next () in let name = next () in let ex = next () in let pa = next () in
-    { o_id = nat i; o_pkg = nat pkg; o_name = nat name; o_exported = (ex = 1); o_path = opt pa }) in
+    let pkg = next () in let name = next () in let ex = next () in let di = next () in let pa = next () in
+    { o_id = nat i; o_pkg = nat pkg; o_name = nat name; o_exported = (ex = 1); o_dispatch = (di = 1); o_path = opt pa }) in
   let nk = next () in
   let keys = Array.init nk (fun _ ->
     let kind = next () in let ob = next () in let num = next () in let pn = next () in let fld = next () in
